@@ -263,6 +263,9 @@ class SolverStats:
         import z3
         t0 = time.time()
         r = solver.check(*assumptions)
+        if r == z3.unknown and not assumptions:
+            # one retry in a fresh solver with a long time-out before the query counts as unknown
+            s2 = z3.Solver(); s2.set("timeout", 60000); s2.add(solver.assertions()); r = s2.check()
         self.time += time.time() - t0
         self.queries += 1
         if r == z3.sat: self.sat += 1
